@@ -15,6 +15,8 @@ from ..anf import R
 from .. import anf, trip
 from .common import struct_ob, formula_ob, guard, U
 from ..report import AnalysisError
+from ..term import Resolver, pmatch
+from ..seq import Layouts, UNKNOWN, show
 from . import C03, C15
 
 REL = "inference/mcmc/parallel.py"
@@ -301,7 +303,11 @@ def run(prog, tier):
     c, sd = prog.method("ParallelTempering", "shutdown")
     body = [U(s) for s in sd.body
             if not (isinstance(s, ast.Expr) and isinstance(s.value, ast.Constant) and isinstance(s.value.value, str))]
-    ok = len(body) == 2 and body[0] == "self.shutdown_evt.set()" and "join()" in body[1] and "self.processes" in body[1]
+    sets = [n_ for n_ in ast.walk(sd) if isinstance(n_, ast.Call) and U(n_.func) == "self.shutdown_evt.set"]
+    joins = [n_ for n_ in ast.walk(sd) if isinstance(n_, ast.Call) and isinstance(n_.func, ast.Attribute) and n_.func.attr == "join"]
+    over = [n_ for n_ in ast.walk(sd) if isinstance(n_, (ast.For, ast.comprehension)) and U(n_.iter) == "self.processes"]
+    ok = len(sets) == 1 and len(joins) == 1 and len(over) == 1 and sets[0].lineno <= joins[0].lineno \
+        and isinstance(joins[0].func.value, ast.Name) and joins[0].func.value.id in [x.id for x in ast.walk(over[0].target) if isinstance(x, ast.Name)]
     # the worker's outer loop re-checks the event after the read loop
     outer = [w for w in tp.body if isinstance(w, ast.While)]
     ok2 = len(outer) == 1 and U(outer[0].test) == f"not {end}.is_set()" and any(
@@ -421,9 +427,18 @@ def _pair_disjoint(prog):
                          REL, tp.lineno))
     # (c) uniform_pairs: even/odd positions of a shuffled arange
     c2_, up = prog.method("ParallelTempering", "uniform_pairs")
-    txt = [U(s) for s in up.body if not (isinstance(s, ast.Expr) and isinstance(s.value, ast.Constant))]
-    ok = txt == ["proposed_swaps = arange(self.N_chains)", "self.rng.shuffle(proposed_swaps)",
-                 "return [p for p in zip(proposed_swaps[::2], proposed_swaps[1::2])]"]
+    Lu = Layouts(up, prog, c2_.module, c2_)
+    rets_ = Lu.rz.returns()
+    ok, txt = False, [U(s) for s in up.body if not (isinstance(s, ast.Expr) and isinstance(s.value, ast.Constant))]
+    if len(rets_) == 1:
+        arr = [s for s in up.body if isinstance(s, ast.Assign) and isinstance(s.targets[0], ast.Name)
+               and pmatch(s.value, "arange(self.N_chains)") is not None]
+        if len(arr) == 1:
+            nm = arr[0].targets[0].id
+            shuf = [s for s in up.body if isinstance(s, ast.Expr) and pmatch(s.value, f"self.rng.shuffle({nm})") is not None]
+            lay = Lu.layout_of(rets_[0].value, rets_[0])
+            ok = len(shuf) == 1 and arr[0].lineno < shuf[0].lineno < rets_[0].lineno \
+                and lay == (("splice", f"zip({nm}[::2], {nm}[1::2])"),)
     out.append(struct_ob("pair-disjoint", qual(c2_, up), ok,
                          f"uniform pairs must be the even/odd positions of a shuffled arange(N_chains): {txt}", REL, up.lineno))
     # (d) swap() takes its pairs from one of the checked generators, once, after the snapshot
